@@ -3,6 +3,7 @@ import importlib
 
 # property -> (module, quick runs, thorough runs)
 TABLE = {
+    "C13": ("dsim.c13", 8_000, 300_000),
     "C12": ("dsim.c12", 40_000, 3_000_000),
     "C16": ("dsim.c16", 60_000, 6_000_000),
     "C05": ("dsim.c05", 60_000, 3_000_000),
@@ -19,6 +20,13 @@ def budget(prop, tier):
 
 
 MANIFEST_CHECKS = {
+    "C13": {
+        "level": "fault_enumeration",
+        "technique": "deterministic simulation with fault injection: heap-wide frame condition over seeded histories, the catalogue of rejected calls and failing saves fired at every visited state, SimFS event trace for the destination file",
+        "design_ref": "DESIGN.md s4 C13",
+        "text": "Seeded histories (2-12 state-changing steps quick, up to 30 thorough) over a heap of aliasing tiers, textgrids and SimFS files; after every state-changing step the catalogue of failing mutator calls (invalid option, collision in error mode, degenerate/malformed entry, missing entry/tier, name clash, span change under reportingMode='error'), of copy-returning operations and queries with fresh (also invalid) arguments, and of failing saves against a pre-existing destination is fired at live objects (quick: seeded 40% subset of calls on 3 objects; thorough: all calls on all objects). After every call the observation of EVERY live object and file is compared: no-mutation for copies/queries/saves (returned or raised), all-or-nothing for raised mutators, frame condition with identity-aware aliasing for successful mutators, event-level 'destination never opened/truncated/written' for failed saves, overwrite-vs-fresh equality for successful saves. Enumeration is of the fault catalogue per visited state; the states themselves are sampled.",
+        "note": "Trusted: the observation function (public surface: names, order, entries typed+exact, spans; file bytes) and SimFS's event trace. Injected device errors (ENOSPC/EIO/EACCES) are observations only, outside the property's listed failure causes. Tier objects shared by identity between textgrids are legitimate and followed by `is`.",
+    },
     "C12": {
         "level": "exploration",
         "technique": "deterministic simulation: seeded add/remove/rename/replace histories (incl. rejected calls) on live Textgrids vs an ordered-list model; tier-wise edits differential against the real per-tier operations",
